@@ -342,7 +342,7 @@ def run_e2e(arg, tier, res, only=None):
         if only_fault != "ALL" and fault != only_fault:
             continue
         t = c04.with_noprop(text) if noprop else text
-        doc = parse(t)
+        doc = incr.gparse(t)
 
         def scenario(c, ebound=False):
             return incr.run(c, schema, doc, sites, fault, early, early_bound=ebound, variables=variables)
